@@ -1,5 +1,6 @@
 """C19 - serial receivers: R-BOUND (interval analysis of buffer writes),
-R-FSM-TOTAL, R-FSM-RESET, R-FSM-CHUNK, R-FSM-CHK, R-FSM-ESC."""
+R-FSM-TOTAL, R-FSM-RESET, R-FSM-CHUNK, R-FSM-CHK, R-FSM-ESC,
+R-FSM-DISPATCH."""
 import ast
 
 from ..core import AnalysisError, unparse, where
@@ -116,11 +117,12 @@ def _check_defassign(run, world, mod, c):
             continue
         reach.add(m)
         for n in ast.walk(c.methods[m][1]):
-            if isinstance(n, ast.Call) and isinstance(
-                    n.func, ast.Attribute) and isinstance(
-                        n.func.value, ast.Name) and n.func.value.id in (
-                            "self", "cls"):
-                stack.append(n.func.attr)
+            # called directly or taken as a bound method first
+            # (`step = self._process_byte; step(rx)`)
+            if isinstance(n, ast.Attribute) and isinstance(
+                    n.ctx, ast.Load) and isinstance(
+                        n.value, ast.Name) and n.value.id in ("self", "cls"):
+                stack.append(n.attr)
     run.analysed["receive-path methods of %s" % c.name] = len(reach)
     if len(reach) < 3:
         raise AnalysisError("%s: receive path not found from data_received"
@@ -187,8 +189,117 @@ def _check_defassign(run, world, mod, c):
                where(mod, fn), trivial=bool(not bad))
 
 
+LUBA_EVENT_STATUS_BYTE = 6     # start, command, length, tick(2), line, status
+LUBA_EVENT_DELIVERS = {
+    # queue attribute -> event type (status bits 7..6) whose messages feed it
+    "_queue_tx_conf": 0,         # 'DALI frame was sent'
+    "_queue_rx_raw_dali": 2,     # 'DALI frame was received', 8 bit
+    "_queue_rx_dali": 2,         # ... 16 / 24 bit
+}
+
+
+def _check_luba_dispatch(run, world, folder, mod, c):
+    """Which LUBA event messages deliver an item: per delivery site, the
+    conditions of the paths reaching it are evaluated for every value of the
+    message's status byte (constant folder, locals resolved); the event
+    types (bits 7..6) for which some path stays possible must be exactly
+    the type the framing assigns to that queue."""
+    run.rule("R-FSM-DISPATCH", "LUBA event messages deliver an item only "
+             "for the event type the framing assigns to the queue "
+             "(0: sent -> confirmation, 2: received -> answer / command)")
+    if "_process_luba_event" not in c.methods:
+        return
+    from .. import astq
+    from ..normal import normalise
+    from ..pathcond import path_conds
+    P = c.qname + "._process_luba_event"
+    fn = normalise(c.methods["_process_luba_event"][1], world, SER, c,
+                   aliases="params")
+    cfg = CFG(fn, may_raise=explicit_raise_only, name=P)
+    param = fn.args.args[1].arg
+    defs = astq._defs(fn)
+    tests = {}
+
+    def tree(t):
+        k = unparse(t, 400)
+        tests[k] = t
+        return ("atom", ("p", k, True))
+    status = "%s[%d]" % (param, LUBA_EVENT_STATUS_BYTE)
+    cache = {}
+
+    resolved = {}
+
+    def value(k, sbyte):
+        if (k, sbyte) in cache:
+            return cache[(k, sbyte)]
+        if k not in resolved:
+            r_ = astq.resolve(fn, tests[k], defs=defs)
+            resolved[k] = r_ if any(
+                isinstance(x, ast.Subscript) and unparse(x) == status
+                for x in ast.walk(r_)) else None
+        if resolved[k] is None:       # does not read the status byte
+            cache[(k, sbyte)] = UNKNOWN
+            return UNKNOWN
+        from ..inline import acopy
+        e = acopy(resolved[k])
+
+        class S(ast.NodeTransformer):
+            def visit_Subscript(self, n):
+                if isinstance(n.ctx, ast.Load) and unparse(n) == status:
+                    return ast.copy_location(ast.Constant(sbyte), n)
+                return self.generic_visit(n)
+        e = ast.fix_missing_locations(S().visit(e))
+        try:
+            v = folder.eval(e, {"self": ClassRef(c)}, SER, c)
+        except Exception:
+            v = UNKNOWN
+        if v is not UNKNOWN:
+            v = bool(v)
+        cache[(k, sbyte)] = v
+        return v
+    nsites = 0
+    for n in cfg.reachable:
+        if n.kind != "stmt" or n.ast is None:
+            continue
+        for x in _walk_no_nested(n.ast):
+            if not (isinstance(x, ast.Call) and isinstance(
+                    x.func, ast.Attribute) and x.func.attr in (
+                        "put_nowait", "distribute", "put") and isinstance(
+                            x.func.value, ast.Attribute) and unparse(
+                                x.func.value.value) == "self" and
+                    x.func.value.attr in LUBA_EVENT_DELIVERS):
+                continue
+            q = x.func.value.attr
+            want = LUBA_EVENT_DELIVERS[q]
+            nsites += 1
+            d = path_conds(cfg, n, tree, what="R-FSM-DISPATCH")
+            types = set()
+            decided = False
+            for sbyte in range(256):
+                for conj in d:
+                    vals = [(value(a[1], sbyte), a[2]) for a in conj
+                            if a[0] == "p"]
+                    if any(v is not UNKNOWN for v, _ in vals):
+                        decided = True
+                    if all(v is UNKNOWN or v == pol for v, pol in vals):
+                        types.add(sbyte >> 6)
+                        break
+            run.ob("R-FSM-DISPATCH", "%s#%s" % (P, q),
+                   decided and types == {want},
+                   "self.%s is fed by event messages of type %s (bits 7..6 "
+                   "of the status byte, all 256 values evaluated); the "
+                   "framing delivers there for type %d only%s" % (
+                       q, sorted(types), want, "" if decided else
+                       " (no path condition depends on the status byte)"),
+                   where(mod, n),
+                   sample={"rule": "R-FSM-DISPATCH", "queue": q,
+                           "event_types": sorted(types)})
+    run.floor("LUBA event delivery sites", nsites, 3)
+
+
 def _check_proto(run, world, folder, mod, c):
     _check_defassign(run, world, mod, c)
+    _check_luba_dispatch(run, world, folder, mod, c)
     P = c.qname
     fn = c.methods["_process_byte"][1]
     rfn = c.methods["reset"][1]
@@ -435,8 +546,22 @@ def _check_proto(run, world, folder, mod, c):
     # ---- R-FSM-CHUNK -----------------------------------------------------------
     run.rule("R-FSM-CHUNK", "data_received == for b in data: "
              "_process_byte(b); no inter-byte state outside self")
-    body = [s for s in dfn.body if not (isinstance(s, ast.Expr) and (
-        isinstance(s.value, ast.Constant) or "_LOG." in unparse(s)))]
+    from .. import astq
+    dfn = astq.propagate(dfn)     # `step = self._process_byte; step(b)`
+
+    def _effect_free(s):
+        if isinstance(s, ast.Expr) and (isinstance(
+                s.value, ast.Constant) or "_LOG." in unparse(s)):
+            return True
+        # a local bound to a name / attribute chain
+        if isinstance(s, ast.Assign) and all(
+                isinstance(t, ast.Name) for t in s.targets):
+            v = s.value
+            while isinstance(v, ast.Attribute):
+                v = v.value
+            return isinstance(v, ast.Name)
+        return False
+    body = [s for s in dfn.body if not _effect_free(s)]
     ok = len(body) == 1 and isinstance(body[0], ast.For) and unparse(
         body[0].iter) == dfn.args.args[1].arg and len(body[0].body) == 1 \
         and unparse(body[0].body[0]) == "self._process_byte(%s)" % unparse(
